@@ -7,6 +7,7 @@ import (
 	"fmt"
 	"go/token"
 	"go/types"
+	"os"
 	"sort"
 	"strings"
 
@@ -569,6 +570,10 @@ func ruleHNSWOrder(r *Run, p string) {
 			// that was sorted — and the sort ran on every way to the copy unless that way established len(cands) ≤ M
 			// (nothing is dropped then, the order is immaterial)
 			sortedName := c.S(sortCall.(ssa.CallInstruction).Common().Args[0])
+			sortedVal := sortCall.(ssa.CallInstruction).Common().Args[0]
+			if mi, isMI := sortedVal.(*ssa.MakeInterface); isMI {
+				sortedVal = mi.X
+			}
 			allInstrs(fn, func(in ssa.Instruction) {
 				st, ok := in.(*ssa.Store)
 				if !ok || okPrefix {
@@ -602,7 +607,105 @@ func ruleHNSWOrder(r *Run, p string) {
 						base = strings.TrimSuffix(vs, suf)
 					}
 				}
-				if base == "" || base != sortedName {
+				multiCell := false
+				{
+					var sv ssa.Value
+					switch v := st.Val.(type) {
+					case *ssa.Field:
+						if ld, ok := v.X.(*ssa.UnOp); ok && ld.Op == token.MUL {
+							if x, ok := ld.X.(*ssa.IndexAddr); ok {
+								sv = x.X
+							}
+						}
+					case *ssa.UnOp:
+						if fa, ok := v.X.(*ssa.FieldAddr); ok && v.Op == token.MUL {
+							if x, ok := fa.X.(*ssa.IndexAddr); ok {
+								sv = x.X
+							}
+							if al, ok := fa.X.(*ssa.Alloc); ok {
+								if s1 := singleStore(al); s1 != nil {
+									if ld, ok := s1.(*ssa.UnOp); ok && ld.Op == token.MUL {
+										if x, ok := ld.X.(*ssa.IndexAddr); ok {
+											sv = x.X
+										}
+									}
+								}
+							}
+						}
+					}
+					if ld, ok := sv.(*ssa.UnOp); ok && ld.Op == token.MUL {
+						if al, ok := ld.X.(*ssa.Alloc); ok && singleStore(al) == nil {
+							multiCell = true // a variable assigned more than once: its value depends on the path
+						}
+					}
+				}
+				if base == "" || base != sortedName || multiCell {
+					// the list is cut first and copied whole afterwards: `if len > M { sort; cands = cands[:M] }; for i, c := range cands`
+					// — on every way to the copy the source is the sorted list itself (everything is kept) or a prefix of
+					// it, and a prefix only after the sort
+					var src *ssa.IndexAddr
+					switch v := st.Val.(type) {
+					case *ssa.Field:
+						if ld, ok := v.X.(*ssa.UnOp); ok && ld.Op == token.MUL {
+							src, _ = ld.X.(*ssa.IndexAddr)
+						}
+					case *ssa.UnOp:
+						if fa, ok := v.X.(*ssa.FieldAddr); ok && v.Op == token.MUL {
+							src, _ = fa.X.(*ssa.IndexAddr)
+							if al, ok := fa.X.(*ssa.Alloc); ok && src == nil {
+								if s1 := singleStore(al); s1 != nil {
+									if ld, ok := s1.(*ssa.UnOp); ok && ld.Op == token.MUL {
+										src, _ = ld.X.(*ssa.IndexAddr)
+									}
+								}
+							}
+						}
+					}
+					if src == nil || src.Index != ia.Index || !strings.HasSuffix(vs, ".id") {
+						return
+					}
+					paths, trunc := enumPaths(fn.Blocks[0], walkCfg{MaxVisits: 1, MaxPaths: 2000, Stop: func(b *ssa.BasicBlock) bool { return b == st.Block() }})
+					if trunc {
+						return
+					}
+					all, n := true, 0
+					for _, pth := range paths {
+						if pth.End != EndStop || !pth.Feasible() {
+							continue
+						}
+						n++
+						y := cellValueOnPath(pth, src.X)
+						if os.Getenv("COMETLINT_DEBUG_PREFIX") != "" {
+							fmt.Fprintf(os.Stderr, "PREFIX %s: y=%s (%T) sorted=%s sortedVal=%s hasSort=%v\n", name, c.S(y), y, sortedName, c.S(cellValueOnPath(pth, sortedVal)), pth.Has(sortCall))
+						}
+						cellOf := func(v ssa.Value) *ssa.Alloc {
+							if ld, ok := v.(*ssa.UnOp); ok && ld.Op == token.MUL {
+								al, _ := ld.X.(*ssa.Alloc)
+								return al
+							}
+							return nil
+						}
+						sameVar := cellOf(src.X) != nil && cellOf(src.X) == cellOf(sortedVal) // the copied and the sorted list are one variable
+						isSorted := func(v ssa.Value) bool {
+							if sameVar {
+								if _, isSl := v.(*ssa.Slice); !isSl {
+									return true // the variable's whole value
+								}
+							}
+							return c.S(v) == sortedName || c.S(cellValueOnPath(pth, v)) == sortedName || c.S(cellValueOnPath(pth, v)) == c.S(cellValueOnPath(pth, sortedVal))
+						}
+						switch {
+						case isSorted(y):
+						default:
+							sl, isSl := y.(*ssa.Slice)
+							if !isSl || sl.Low != nil || !isSorted(sl.X) || !pth.Has(sortCall) {
+								all = false
+							}
+						}
+					}
+					if all && n > 0 {
+						okPrefix = true
+					}
 					return
 				}
 				paths, trunc := enumPaths(fn.Blocks[0], walkCfg{MaxVisits: 1, MaxPaths: 2000, Stop: func(b *ssa.BasicBlock) bool { return b == st.Block() }})
